@@ -27,6 +27,10 @@ CHECKS = {
    text="Seeded exploration of (fuzzer shape, property, expectation, seed, run count, run context) over properties compiled from source by the real tool-chain, against a shrink-free reference loop built from Prng::from_seed / sample / eval: found-or-not, iteration count, labels and verdict must agree; every counterexample is re-applied, replayed from its recorded choices, compared shortlex with the first failing case, and re-run on the same thread and alone on another thread under another hash epoch. The shrinker's memo table is checked operation by operation against the uncached function over model fuzzers with data-dependent consumption.",
    note="Trusted: Prng::sample and PropertyTest::eval as building blocks of the reference loop; the harness's own fuzz library (std lib cannot be fetched); replayability is required only for fuzzers that are replay-consistent on the unshrunk case.",
    technique="deterministic simulation: seeded seeds x fuzzer shapes x run contexts vs shrink-free reference model; model-based check of the shrinker cache over lookup histories"),
+ "C18": dict(engine="sim-blueprint", category="exploration", design_ref="DESIGN.md §4 C18",
+   text="Seeded histories of operations (apply conforming / near-miss / unfiltered / when none left, reload, query address+policy) on the durable plutus.json of generated parameterised validators, executed through the real Project::blueprint → apply_parameter → write path and checked after every step against a trivial reference model (original program, applied values, remaining schemas): accepted iff an independent conformance predicate says so, never a panic, nothing changes on rejection, exactly the first remaining parameter of exactly that validator is consumed, published code decodes to [(original d1)…dk], hash is blake2b-224 of the published bytes; at the end one-by-one ≡ all-at-once ≡ raw-bytes path and the applied validator evaluates like the original on all arguments.",
+   note="Trusted: the independent CIP-57 conformance predicate over the blueprint's JSON; the unapplied compiledCode as the model's starting point; behaviour compared on the mint-handler context shape.",
+   technique="deterministic simulation: seeded operation histories on a durable blueprint file vs executable reference model"),
  "C20": dict(engine="sim-storage", category="fault_enumeration", design_ref="DESIGN.md §4 C20",
    text="Storage-fault subset of C20: artefacts produced by the real tool-chain (plutus.json, hex/CBOR/flat scripts, pretty UPLC, .ak sources, aiken.toml, parameter CBOR) are truncated, bit-flipped, torn between two genuine builds, or have blocks zeroed / duplicated / deleted / swapped / appended, then fed to the consumer the tool uses for that file and to the next consumer down the chain, on an 8 MiB stack. Quick samples seeded fault plans over the whole artefact corpus; thorough additionally enumerates every truncation point and every single-bit flip of artefacts up to 4 KiB. A panic, abort, stack overflow or hang is a violation.",
    note="Claimed for the storage-fault model only: adversarially constructed inputs (deep nesting, grammar-aware garbage) are outside this technique family. Verdict taken in the shipped profile (no overflow checks). Invalid UTF-8 is rejected by fs::read_to_string before a text decoder sees it.",
